@@ -21,6 +21,10 @@ type Doc struct {
 	Hints  bool     `json:"hints"`
 	Engine string   `json:"engine,omitempty"` // "" / "pango" / "gotext"
 	Tags   []string `json:"tags"`
+	// table probes (probes.go): no HTML, the "render" sweeps a package-level table
+	Probe string   `json:"probe,omitempty"`
+	Lang  string   `json:"lang,omitempty"`
+	Words []string `json:"words,omitempty"`
 }
 
 var words = []string{
@@ -44,10 +48,11 @@ func lorem(r *vlib.Rng, n int) string {
 var colors = []string{"red", "lime", "blue", "#123456", "rgba(10,20,30,0.5)", "orange", "teal", "black"}
 
 type gen struct {
-	r    *vlib.Rng
-	ids  []string
-	nid  int
-	tags map[string]bool
+	r        *vlib.Rng
+	ids      []string
+	nid      int
+	tags     map[string]bool
+	cssExtra map[string]bool // rules the blocks need in the document's own <style>
 }
 
 func (g *gen) tag(t string) { g.tags[t] = true }
@@ -140,7 +145,9 @@ func (g *gen) svg() string {
 func (g *gen) block(depth int) string {
 	r := g.r
 	var sb strings.Builder
-	switch k := r.Intn(14); {
+	switch k := r.Intn(21); {
+	case k >= 14:
+		return g.extraBlock()
 	case k == 13:
 		g.tag("img")
 		const png = "data:image/png;base64,iVBORw0KGgoAAAANSUhEUgAAAAEAAAABCAYAAAAfFcSJAAAADUlEQVR42mP8z8BQDwAEhQGAhKmMIQAAAABJRU5ErkJggg=="
@@ -229,7 +236,7 @@ const baseCSS = `
 html { font-family: weasyprint; font-size: 10px; line-height: 12px }
 body { counter-reset: sec par }
 .g1 { background: linear-gradient(to bottom, red 1em, blue 3em) }
-h2 { string-set: chap content(); counter-increment: sec; bookmark-level: 1; bookmark-label: counter(sec) ". " content(); font-size: 12px; margin: 4px 0 }
+h2 { string-set: chap content(); counter-increment: sec; bookmark-level: 1; bookmark-label: counter(sec) ". " content(); font-size: 1.2em; margin: 4px 0 }
 h2::before { content: counter(sec) ". "; color: gray }
 p { margin: 3px 0; counter-increment: par; orphans: 1; widows: 1 }
 p::before { content: "[" counter(par) "] "; color: teal }
@@ -263,10 +270,36 @@ var userCSSPool = []string{
 
 // genDoc builds one document from the generator state
 func genDoc(r *vlib.Rng, i int) Doc {
-	g := &gen{r: r, tags: map[string]bool{}}
+	g := &gen{r: r, tags: map[string]bool{}, cssExtra: map[string]bool{}}
 	var body strings.Builder
 	nb := r.Range(4, 18)
-	switch i % 6 {
+	forceUA, forceFonts := false, false
+	switch i % 8 {
+	case 2: // hyphenation in several languages (the dictionaries cache, non-standard patterns)
+		g.tag("multi-hyphen")
+		for p := r.Range(3, 6); p > 0; p-- {
+			tag, v := pickVocab(r)
+			g.tag("hyphens")
+			g.tag("hyph-lang:" + strings.ToLower(strings.SplitN(v.Tag, "-", 2)[0]))
+			if len(v.NonStd) > 0 {
+				g.tag("hyph-nonstandard-dic")
+			}
+			fmt.Fprintf(&body, `<p lang="%s" class="hy" style="width:%dpx;font-family:%s">%s</p>`, tag, r.Range(30, 110), vlib.Pick(r, []string{"weasyprint", "Ahem"}), g.hyphText(v, r.Range(8, 30)))
+		}
+		nb = r.Range(2, 8)
+	case 3: // the document's own fonts, lengths relative to them
+		g.tag("fonts-doc")
+		forceFonts = true
+		for p := r.Range(2, 5); p > 0; p-- {
+			fmt.Fprintf(&body, `<div style="font-family:%s;font-size:%dpx;width:%dex;height:%dch;margin:%dch 0 0 %dex;background:%s">%s</div>`,
+				vlib.Pick(r, []string{"docfont", "webfont", "docfont, webfont"}), vlib.Pick(r, []int{10, 20, 50, 100}), r.Range(2, 12), r.Range(1, 4), r.Intn(3), r.Intn(4), vlib.Pick(r, colors), vlib.Pick(r, words))
+		}
+		nb = r.Range(2, 8)
+	case 5: // full HTML5 user-agent stylesheet, presentational hints
+		g.tag("full-ua")
+		forceUA = true
+	}
+	switch i % 8 {
 	case 0: // anchor-heavy: many ids on every page
 		g.tag("many-ids")
 		for p := 0; p < r.Range(1, 4); p++ {
@@ -289,17 +322,34 @@ func genDoc(r *vlib.Rng, i int) Doc {
 		body.WriteByte('\n')
 	}
 	d := Doc{Name: fmt.Sprintf("doc%d", i), TestUA: r.Chance(1, 3), Hints: r.Chance(1, 4)}
+	if forceUA {
+		d.TestUA, d.Hints = false, true
+	}
+	fontFaces := ""
+	if forceFonts || r.Chance(1, 3) {
+		fontFaces = g.fontFaceCSS()
+	}
+	extra := make([]string, 0, len(g.cssExtra))
+	for c := range g.cssExtra {
+		extra = append(extra, c)
+	}
+	sortStrings(extra)
+	docCSS := fontFaces + counterStyleCSS + strings.Join(extra, "\n")
 	if r.Chance(1, 6) {
 		d.Engine = "gotext"
 		g.tag("gotext")
 	}
 	title := lorem(r, 2)
-	d.HTML = fmt.Sprintf(`<!DOCTYPE html><html lang="en"><head><title>%s</title><meta name="author" content="A %d"><meta name="keywords" content="k1, k2"><meta name="description" content="d"><style>%s html { font-size: %dpx }</style></head><body class="g%d">%s</body></html>`,
-		title, i, baseCSS, vlib.Pick(r, []int{10, 10, 9, 11, 12, 8}), r.Intn(3), body.String())
-	if r.Chance(2, 3) {
+	d.HTML = fmt.Sprintf(`<!DOCTYPE html><html lang="en"><head><title>%s</title><meta name="author" content="A %d"><meta name="keywords" content="k1, k2"><meta name="description" content="d"><style>%s %s html { font-size: %dpx }</style></head><body class="g%d">%s</body></html>`,
+		title, i, baseCSS, docCSS, vlib.Pick(r, []int{10, 10, 9, 11, 12, 8}), r.Intn(3), body.String())
+	if r.Chance(3, 4) {
 		// from a small pool, so that different documents (with different font
-		// sizes) share one parsed stylesheet object inside a process
-		d.CSS = append(d.CSS, vlib.Pick(r, userCSSPool))
+		// sizes, fonts, counters) share one parsed stylesheet object inside a process
+		pool := sharedCSSPool()
+		d.CSS = append(d.CSS, vlib.Pick(r, pool))
+		if r.Chance(1, 3) {
+			d.CSS = append(d.CSS, vlib.Pick(r, pool))
+		}
 		g.tag("user-css")
 	}
 	for t := range g.tags {
